@@ -164,7 +164,8 @@ example : wf true true ⟨.free, .none⟩ prog_sendInReplyTo_persistLate = false
 obligation of that name. -/
 
 theorem C02_skel_queueForSend (o : Opts) :
-    expand .queueForSend { o with reset := false } Gen.skel_queueForSend = some (prog_queueForSend o.persist) := by
+    expand .queueForSend { o with reset := false } Gen.skel_queueForSend
+      = some ((prog_queueForSend o.persist).filter (· != Step.notify)) := by
   obtain ⟨p, r, l, lim, n⟩ := o; cases p <;> rfl
 
 /-- both branches: `if !IsLoggedOn { return queueForSend }`, then RLock, Lock, prep, enqueue, flush -/
@@ -207,10 +208,13 @@ theorem C02_skel_prepMessageForSend (o : Opts) :
 theorem C02_skel_resendMessages :
     resendShapeOK Gen.skel_generateSequenceReset Gen.skel_resendMessages = true := by decide
 
-/-- sendQueued / dropQueued only read and rewrite the queue and call sendBytes / notify: no lock, no store access -/
+/-- sendQueued / dropQueued only read and rewrite the queue and call sendBytes: no lock, no store access.
+    `notifyMessageOut` (Step.notify: no effect on the model state, `Conc.stepThread`) is not part of the skeletons — its
+    position inside a critical section is not observable; WHO calls it is pinned instead. -/
 theorem C02_skel_sendQueued :
-    Gen.skel_sendQueued = ["queueRead", "sendBytes", "queueWrite", "notify", "dropQ"] ∧
-    Gen.skel_dropQueued = ["queueWrite"] := by decide
+    Gen.skel_sendQueued = ["queueRead", "sendBytes", "queueWrite", "dropQ"] ∧
+    Gen.skel_dropQueued = ["queueWrite"] ∧
+    Gen.notifyCallers = ["queueForSend", "sendQueued"] := by decide
 
 /-- the functions of session.go, in_session.go, session_state.go, registry.go and the state files that touch the send
     queue, the numbering or persistence are exactly the modelled ones: a new function doing so changes this list -/
